@@ -356,6 +356,13 @@ def impl_pending_types(canon):
     return snapshot_fields(canon).get('pending', [])
 
 
+def pending_reliable(ctx):
+    """backmp11 leaves processed entries in its pool as tombstones; when the accessor that tells them apart is not found in
+    the tree under test (VERIF_DEGRADED) the pending set of a backmp11 machine cannot be read and is not compared"""
+    import os
+    return not ('pool_tombstones' in os.environ.get('VERIF_DEGRADED', '') and ctx.cfg in ('m', 'mf', 'mc'))
+
+
 def model_pending_types(w):
     types = []
     byserial = {}
@@ -465,7 +472,7 @@ def o_C04(x, ctx):
         out.append(('rtc-order', f'callback sequence differs at #{d}: impl [{fmt(a)}] model [{fmt(b)}]'))
     ip = impl_pending_types(ctx.dst_canon(x))
     mp = model_pending_types(x.mworld)
-    if ip != mp and not out:
+    if ip != mp and not out and pending_reliable(ctx):
         out.append(('pending', f'pending events after the call (types in submission order): impl {ip} model {mp}'))
     if x.ledger != '-':
         out.append(('ledger', f'ledger: {x.ledger}'))
@@ -639,7 +646,7 @@ def o_C05(x, ctx):
     # 4. retention / exactly-once: pending sets and the callback sequence against the model
     ip = impl_pending_types(ctx.dst_canon(x))
     mp = model_pending_types(x.mworld)
-    if ip != mp:
+    if ip != mp and pending_reliable(ctx):
         out.append(('retention', f'pending events after the call (types in submission order): impl {ip} expected {mp}'))
     a = full_proj(x.trace, ctx.cfg)
     b = full_proj(x.mtrace, ctx.cfg)
@@ -696,7 +703,7 @@ def o_C12(x, ctx):
         out.append(('config', f'active state ids after the call impl {ic} model {mc} (active-state-switch policy)'))
     ip = impl_pending_types(ctx.dst_canon(x))
     mp = model_pending_types(x.mworld)
-    if ip != mp:
+    if ip != mp and pending_reliable(ctx):
         out.append(('pending', f'pending events after the call: impl {ip} model {mp}'))
     return out
 
